@@ -48,6 +48,7 @@ Mnemonic8 == <<109, 110, 101, 109, 111, 110, 105, 99>>      \* "mnemonic"
 
 Conforms(e) ==
   CASE e.op = "bip39.SetWordList" -> SetWordListConforms(e)
+    [] e.op = "bip39.par" -> e.out.panic = ""        \* concurrent calls answer as they do alone (compared in the driver, child process)
     [] e.op = "bip39.RegisterWordList" -> e.out.panic = "" /\ Len(e.in.words) = 2048
     [] e.op = "bip39.EntropyToMnemonic" ->
          /\ e.out.panic = "" /\ wl # <<>>
